@@ -216,6 +216,12 @@ mpn_perfect_square_p (mp_srcptr up, mp_size_t usize)
     int res;
     TMP_DECL;
 
+    /* mpn_sqrtrem needs a non-zero most significant limb, which nothing
+       promises here ({0} is the only way to ask about 0) */
+    MPN_NORMALIZE (up, usize);
+    if (usize == 0)
+      return 1;
+
     TMP_MARK;
     root_ptr = (mp_ptr) TMP_ALLOC ((usize + 1) / 2 * BYTES_PER_MP_LIMB);
 
